@@ -206,7 +206,7 @@ def pair_item(arg):
     W.set_now(NOW)
     a, b = pair
     for va in PAIR_VALUES.get(a, ['1']):
-        for vb in PAIR_VALUES.get(b, VALUES if tier != 'quick' else ['', '0', '-1', 'abc', '9' * 30, '1.5', '\u00b2', 'PT5S', '2147483647']):
+        for vb in PAIR_VALUES.get(b, VALUES if tier != 'quick' else ['', '0', '-1', 'abc', '9' * 30, '1.5', '\u00b2', 'PT5S', '2147483647', '{"a":1}', '{', '{0}']):
             url = with_query(path, {a: va, b: vb})
             r = w.get(url)
             acc.state((path, a, va, b, vb[:16]))
